@@ -65,14 +65,14 @@ def overlapping_gene(w, g, new_gid, antisense=False):
 
 
 def rich_world(seed, n_chroms=6, genes_per_chrom=3, groups=3, multimappers=True, reads_per_t=5, hidden_cov=5,
-               unmapped=3, polya_frac=0.5, read_modes=None, extra_len=0):
+               unmapped=3, polya_frac=0.5, read_modes=None, extra_len=0, zoo=()):
     """Several chromosomes of distinct lengths, novel (hidden) isoforms on every chromosome, shared-exon and antisense
     genes, paralogs with multi-mapped reads, read-group tags, a few unmapped records."""
     w = World(seed)
     rng = w.rng
     for ci in range(n_chroms):
         cname = "chr%d" % (ci + 1)
-        w.add_chrom(cname, 60000 + ci * 4321 + genes_per_chrom * 9000 + extra_len)
+        w.add_chrom(cname, 60000 + ci * 4321 + genes_per_chrom * 9000 + extra_len + (65000 if zoo else 0))
         pos = 1500
         for gi in range(genes_per_chrom):
             gid = "G%d_%d" % (ci + 1, gi + 1)
@@ -157,6 +157,8 @@ def rich_world(seed, n_chroms=6, genes_per_chrom=3, groups=3, multimappers=True,
                     if r is not None:
                         r.truth["multimap"] = True
                         r.truth["tie"] = True
+    if zoo:
+        w.zoo_placed = add_zoo(w, zoo)
     for k in range(unmapped):
         from vlib.world import Read
         w.reads.append(Read("unm%03d" % k, None, -1, [], "ACGTACGTACGTACGT", flag=4, mapq=0, truth={"unmapped": True}))
@@ -380,3 +382,143 @@ def alt_polya_locus(w, gid, chrom, pos, strand, ext=1200, n_reads=8):
         w.make_read(chrom, t1, flag=0 if strand == "+" else 16, truth={"src": gid + ".t1", "class": "reference-chain-annotated-end"}, **tail)
         w.make_read(chrom, long3, flag=0 if strand == "+" else 16, truth={"src": gid + ".t1", "class": "reference-chain-alternative-polya-site"}, **tail)
     return g, pos + span
+
+
+# ---------------------------------------------------------------------------------------------------------------
+# "zoo": special loci collected from the seeded-change rounds, usable in any world (each adds genes AND reads)
+def _free_pos(w, chrom, gap=2500):
+    return max([g.end for g in w.genes if g.chrom == chrom] + [1000]) + gap
+
+
+def _reads_for(w, g, n_ann=5, n_hidden=8, modes=("full", "full", "trunc5")):
+    rng = w.rng
+    for t in g.transcripts:
+        for _ in range(n_ann):
+            w.read_from_transcript(t, mode=rng.choice(modes), jitter=0, polya=rng.random() < 0.7, flag=rng.choice((0, 16)))
+    for t in g.hidden:
+        for _ in range(n_hidden):
+            w.read_from_transcript(t, mode="full", jitter=0, polya=True, flag=rng.choice((0, 16)))
+
+
+def contested_intron_locus(w, gid, chrom, pos, true_strand, wrong_first):
+    """Intron annotated on isoforms of BOTH strands (1 isoform of the strand the reference supports, 2 of the other) and an
+    unannotated isoform of the supported strand over it whose other intron is canonical on neither strand."""
+    span = 2000
+
+    def m(a, b):
+        return (pos + a, pos + b) if true_strand == "+" else (pos + span - b, pos + span - a)
+
+    def exs(lst):
+        return sorted(m(a, b) for a, b in lst)
+    other = "-" if true_strand == "+" else "+"
+    gs = Gene(gid + "P", chrom, true_strand)
+    gs.transcripts.append(Transcript(gid + "P.t1", gid + "P", chrom, true_strand, exs([(0, 300), (600, 900), (1500, 1800)]), True, "contested-intron"))
+    gs.hidden.append(Transcript(gid + "P.h1", gid + "P", chrom, true_strand, exs([(0, 300), (600, 800), (1100, 1400)]), False, "contested-intron-novel"))
+    go = Gene(gid + "M", chrom, other)
+    go.transcripts.append(Transcript(gid + "M.t1", gid + "M", chrom, other, exs([(120, 300), (600, 760)]), True, "contested-intron"))
+    go.transcripts.append(Transcript(gid + "M.t2", gid + "M", chrom, other, exs([(40, 300), (600, 840)]), True, "contested-intron"))
+    for i in gs.transcripts[0].introns:
+        w.plant_sites(chrom, i, true_strand, "canonical")
+    contested = [i for i in gs.transcripts[0].introns if i in go.transcripts[0].introns][0]
+    for i in gs.hidden[0].introns:
+        if i != contested:
+            w.plant_sites(chrom, i, true_strand, "none")
+    w.genes += [go, gs] if wrong_first else [gs, go]
+    return [gs, go], pos + span
+
+
+def alt_terminal_locus(w, gid, chrom, p, strand, side, k=0):
+    """Unannotated isoform whose first (side L) / last (side R) exon begins / ends in the middle of an intron of the annotated one."""
+    a = [(p, p + 299), (p + 1000, p + 1299), (p + 2000, p + 2299), (p + 3000, p + 3399)]
+    b = [(p + 650 + 10 * k, p + 1299), a[2], a[3]] if side == "L" else [a[0], a[1], (p + 2000, p + 2640 + 10 * k)]
+    g = Gene(gid, chrom, strand)
+    g.transcripts.append(Transcript(gid + ".t1", gid, chrom, strand, a, True, "alt-terminal"))
+    g.hidden.append(Transcript(gid + ".h1", gid, chrom, strand, b, False, "alt-terminal-exon-inside-intron"))
+    for intr in g.transcripts[0].introns:
+        w.plant_sites(chrom, intr, strand)
+    w.genes.append(g)
+    return g, p + 3400
+
+
+def shifted_site_locus(w, gid, chrom, p, strand, side):
+    """Unannotated isoform = annotated one with ONE acceptor / donor moved by 25 bp."""
+    a = [(p, p + 130), (p + 640, p + 921), (p + 1790, p + 2160), (p + 2831, p + 3133)]
+    b = list(a)
+    if side == "L":
+        b[1] = (a[1][0] + 25, a[1][1])
+    else:
+        b[2] = (a[2][0], a[2][1] - 25)
+    g = Gene(gid, chrom, strand)
+    g.transcripts.append(Transcript(gid + ".t1", gid, chrom, strand, a, True, "shifted-site-host"))
+    g.hidden.append(Transcript(gid + ".h1", gid, chrom, strand, b, False, "site-moved-by-25"))
+    for intr in g.transcripts[0].introns + g.hidden[0].introns:
+        w.plant_sites(chrom, intr, strand)
+    w.genes.append(g)
+    return g, p + 3200
+
+
+def shared_chain_locus(w, gid, chrom, p, strand):
+    """Annotated isoforms sharing ONE intron chain: t2 = t1 cut at an alternative polyA site, t3 = last intron of t1 retained."""
+    a = [(p, p + 205), (p + 748, p + 953), (p + 1961, p + 2104), (p + 2862, p + 2993)]
+    if strand == "-":
+        a = sorted((2 * p + 2993 - e, 2 * p + 2993 - s_) for s_, e in a)
+        variants = [a, a[1:], [(a[0][0], a[1][1])] + a[2:]]
+    else:
+        variants = [a, a[:3], a[:2] + [(a[2][0], a[3][1])]]
+    g = Gene(gid, chrom, strand)
+    for vi, ex in enumerate(variants):
+        g.transcripts.append(Transcript("%s.t%d" % (gid, vi + 1), gid, chrom, strand, ex, True, "shared-intron-chain"))
+    for intr in g.transcripts[0].introns:
+        w.plant_sites(chrom, intr, strand)
+    w.genes.append(g)
+    return g, p + 3000
+
+
+ZOO_ALL = ("twins", "contested", "intronic", "apa", "alt_terminal", "shifted_site", "shared_chain", "same_coords")
+
+
+def add_zoo(w, parts=ZOO_ALL):
+    """Adds the special loci (with their reads) wherever a chromosome has room.  Returns the names of the parts placed."""
+    rng = w.rng
+    placed = set()
+    if "same_coords" in parts and len(w.chrom_order) >= 2:
+        common = max(g.end for g in w.genes) + 2500
+        if common + 12000 < min(w.chrom_len(c) for c in w.chrom_order):
+            x, _ = w.make_gene("X1", w.chrom_order[0], common, rng.choice("+-"), n_exons=5, n_iso=2, hidden_kinds=("nnic_skip",))
+            _reads_for(w, x)
+            for ci, chrom in enumerate(w.chrom_order[1:]):
+                c = clone_gene(w, x, "X%d" % (ci + 2), chrom, x.start)
+                if c:
+                    _reads_for(w, c)
+            placed.add("same_coords")
+    for ci, chrom in enumerate(w.chrom_order):
+        def room(n):
+            return _free_pos(w, chrom) + n < w.chrom_len(chrom)
+        tag = "%d" % (ci + 1)
+        if "twins" in parts and room(9500):
+            add_twin_loci(w, per_chrom=1, chroms=[chrom], prefix="ZNG", offsets=((2, 4, 6, 3)[ci % 4],))
+            placed.add("twins")
+        if "contested" in parts and room(5000):
+            gs, _ = contested_intron_locus(w, "ZV" + tag, chrom, _free_pos(w, chrom), "+-"[ci % 2], ci % 3 != 1)
+            for g in gs:
+                _reads_for(w, g, n_ann=5, n_hidden=24, modes=("full",))
+            placed.add("contested")
+        if "intronic" in parts and room(8500):
+            intronic_novel_loci(w, ("slc25a%s", "ABCB%s", "zgc:11%s")[ci % 3] % tag, chrom, _free_pos(w, chrom, 3000), "+-"[(ci + 1) % 2])
+            placed.add("intronic")
+        if "apa" in parts and room(9000):
+            alt_polya_locus(w, "ZAPA" + tag, chrom, _free_pos(w, chrom, 3000), "+-"[ci % 2], ext=(1200, 700, 2000)[ci % 3])
+            placed.add("apa")
+        if "alt_terminal" in parts and room(6500):
+            g, _ = alt_terminal_locus(w, "ZALT" + tag, chrom, _free_pos(w, chrom), "+-"[ci % 2], "LR"[(ci // 2) % 2], k=ci)
+            _reads_for(w, g, n_hidden=10)
+            placed.add("alt_terminal")
+        if "shifted_site" in parts and room(6000):
+            g, _ = shifted_site_locus(w, "ZSH" + tag, chrom, _free_pos(w, chrom), "+-"[(ci + 1) % 2], "LR"[ci % 2])
+            _reads_for(w, g, n_hidden=6)
+            placed.add("shifted_site")
+        if "shared_chain" in parts and room(6000):
+            g, _ = shared_chain_locus(w, "ZSC" + tag, chrom, _free_pos(w, chrom), "+-"[ci % 2])
+            _reads_for(w, g, modes=("full", "full", "trunc5", "trunc3"))
+            placed.add("shared_chain")
+    return placed
